@@ -71,7 +71,9 @@ C15Http(pr, q, e) ==
     [C15Scen(pr, q, e, <<>>, Orders1, "none") EXCEPT !.id = "C15/http/" \o pr[1] \o pr[2] \o "/" \o ToString(q) \o "-" \o ToString(e), !.label = "http/" \o pr[1] \o "/q" \o ToString(q) \o "e" \o ToString(e),
         !.run.via = "http",
         !.run.query = "target=" \o T4 \o "&protocol=" \o pr[1] \o "&tcp-method=" \o pr[2] \o "&port=443&max-ttl=4&timeout=300&traceroute-queries=" \o ToString(q) \o "&e2e-queries=" \o ToString(e)]
-C15All(u) == { C15Http(pr, qe[1], qe[2]) : pr \in {<<"udp", "", FALSE>>, <<"tcp", "syn", FALSE>>}, qe \in {<<1, 0>>, <<0, 1>>, <<0, 2>>, <<2, 1>>} } \cup { C15Many(pr) : pr \in {<<"udp", "", FALSE>>, <<"icmp", "", FALSE>>} } \cup { C15ManyHttp(pr) : pr \in {<<"udp", "", FALSE>>, <<"icmp", "", FALSE>>} } \cup { C15Cancel(pr, e, c) : pr \in {<<"udp", "", FALSE>>, <<"tcp", "syn", FALSE>>, <<"udp", "", TRUE>>}, e \in {2, 4}, c \in {100000, 450000} } \cup { C15Scen(pr, qe[1], qe[2], fs, ord, pub) :
+C15All(u) == { C15Http(pr, qe[1], qe[2]) : pr \in {<<"udp", "", FALSE>>, <<"tcp", "syn", FALSE>>}, qe \in {<<1, 0>>, <<0, 1>>, <<0, 2>>, <<2, 1>>} }
+             \* counts beyond one byte
+             \cup { C15Http(<<"udp", "", FALSE>>, 0, 260) } \cup { C15Many(pr) : pr \in {<<"udp", "", FALSE>>, <<"icmp", "", FALSE>>} } \cup { C15ManyHttp(pr) : pr \in {<<"udp", "", FALSE>>, <<"icmp", "", FALSE>>} } \cup { C15Cancel(pr, e, c) : pr \in {<<"udp", "", FALSE>>, <<"tcp", "syn", FALSE>>, <<"udp", "", TRUE>>}, e \in {2, 4}, c \in {100000, 450000} } \cup { C15Scen(pr, qe[1], qe[2], fs, ord, pub) :
                  pr \in Protos, qe \in {<<1, 0>>, <<3, 0>>, <<0, 2>>, <<2, 3>>, <<3, 1>>}, fs \in FaultSets(4), ord \in Orders, pub \in {"none", "ok", "fail"} }
 
 ---------------------------------------------------------------------------
@@ -102,8 +104,13 @@ C19NoSack(cap, via) ==
     LET base == IF via = "http" THEN C19Http(<<"tcp", "sack", FALSE>>, 3, 443, T4) ELSE C19Scen(<<"tcp", "sack", FALSE>>, 1, 3, 443, T4, "proto") IN
     [base EXCEPT !.id = @ \o "/forced_sack/" \o cap, !.label = via \o "/tcpsack/forced_sack_unavailable/" \o cap,
                  !.sack_perm = (cap # "no_sackperm"), !.run.listen_port = IF cap = "port_closed" THEN 0 ELSE 443, !.extra.expect.reject = TRUE]
+\* zero-padded decimal numbers in the HTTP query are decimal numbers (strconv.Atoi): port=040000 is port 40000, max-ttl=010 is 10
+C19HttpPadded(pr) ==
+    [C19Http(pr, 10, 40000, T4) EXCEPT !.id = @ \o "/zero_padded", !.label = "http/" \o pr[1] \o pr[2] \o "/zero_padded_numbers",
+        !.run.query = "target=" \o T4 \o "&protocol=" \o pr[1] \o "&tcp-method=" \o pr[2] \o "&port=040000&max-ttl=010&timeout=0120&traceroute-queries=01&e2e-queries=00"]
 TTLPairs == { <<a, b>> \in TTLVals \X TTLVals : a \in {-1, 0, 1, 2, 255, 256, 257, 300} \/ b \in {255, 256, 257, 300, 511, 65537, 0, -1} }
 C19All(u) ==
+    { C19HttpPadded(pr) : pr \in {<<"udp", "", FALSE>>, <<"tcp", "syn", FALSE>>, <<"icmp", "", FALSE>>} } \cup
     { C19NoSack(cap, via) : cap \in {"port_closed", "no_sackperm"}, via \in {"lib", "http"} } \cup
     { C19Scen(pr, p[1], p[2], 443, IF pr[3] THEN T6 ELSE T4, "ttl") : pr \in Protos, p \in TTLPairs }
     \cup { C19Scen(pr, 1, 3, port, IF pr[3] THEN T6 ELSE T4, "port") : pr \in Protos, port \in PortVals }
